@@ -204,6 +204,9 @@ func TestReplayJournal(t *testing.T) {
 		t.Fatal(err)
 	}
 	tpl := sim.StdWorld(j.Audit)
+	if j.World == "proof" {
+		tpl = sim.ProofWorld(j.Audit)
+	}
 	opts := tpl.Opts
 	if j.Proof != "" {
 		opts.ProofType = j.Proof
